@@ -200,4 +200,12 @@ ProducerOrder == \A t \in Threads : \A i, j \in 1..Len(q) :
                     (i < j /\ EnqIdx(t, q[i]) # 0 /\ EnqIdx(t, q[j]) # 0) => EnqIdx(t, q[i]) < EnqIdx(t, q[j])
 \* stuck for any other reason (mutex never released) would show as a non-quiescent state without successors
 NoDeadlock == Quiescent \/ ENABLED Next
+\* ---- liveness (C07 as the statement words it: "no interleaving leaves every waiter blocked for ever while events are pending,
+\* notification is enabled and woken consumers drain the queue").  Under weak fairness of every thread's next step each behaviour
+\* reaches and stays in a state where every program has finished, or its thread sleeps in an untimed wait that nothing could end
+\* legitimately: the queue is empty or a DisableQueueNotify object is still alive.  (waitFor never sleeps for ever: its time-out
+\* step is always enabled.)  This is stronger than NoLostWakeup /\ NoDeadlock: it also excludes livelock.
+FairSpec == Init /\ [][Next]_vars /\ \A t \in Threads : WF_vars(Step(t) /\ lastT' = t)
+LegitSleep == \A t \in Sleeping : q = <<>> \/ notifyCtr # 0
+Progress == <>[](Quiescent /\ LegitSleep)
 =============================================================================
